@@ -226,6 +226,15 @@ def handleC13 (toks : List String) : String :=
               let (st2, o) := observe st
               let m := showObs o
               let acc := { acc with st := some st2 }
+              -- the model's own re-parse of the href it shows (a run-time checked obligation: "href parses again to
+              -- the same href" is not proved for the model in general)
+              let acc := match construct o.href none with
+                | .ok u' =>
+                  let h2 := (observe { url := u' }).2.href
+                  if h2 == o.href then acc
+                  else { acc with msgs := acc.msgs ++ [s!"MODELDIFF step {i}: the model re-parses its own href {out o.href} to {out h2}"] }
+                | .error .noclaim => acc
+                | .error e => { acc with msgs := acc.msgs ++ [s!"MODELDIFF step {i}: the model cannot re-parse its own href {out o.href}: {errTok e}"] }
               if m == f.take 14 then acc
               else
                 let names := ["href", "toString", "toJSON", "protocol", "username", "password", "host", "hostname", "port",
@@ -239,7 +248,10 @@ def handleC13 (toks : List String) : String :=
       let acc0 : Acc :=
         match construct url none with
         | .ok u => check 0 { st := some { url := u } } none (some { url := u }) (outs.getD 0 []) true
-        | .error .noclaim => check 0 { st := none, claimLost := true } none none (outs.getD 0 []) true
+        | .error .noclaim =>
+          -- outside the model: whether the implementation accepts or rejects the string is not compared
+          if (splitRes (outs.getD 0 [])).1.isSome then { st := none, claimLost := true }
+          else check 0 { st := none, claimLost := true } none none (outs.getD 0 []) true
         | .error e =>
           let (implThrow, _) := splitRes (outs.getD 0 [])
           if implThrow == some (errTok e) then { st := none }
